@@ -243,6 +243,14 @@ def judge_paths(ctx, g, n, E, directed, cls, pairs, all_paths=True):
             pass
     for s, t in pairs:
         if s == t:
+            # a vertex reaches itself by the path that never leaves it: one path, however it is asked for
+            if all_paths:
+                got = [tuple(int(v) for v in p) for p in g.find_all_paths(s, s)]
+                ctx.tap("start_equals_end", "calls"); ctx.tap("start_equals_end", "checked")
+                if got != [(s,)]:
+                    ctx.fail("find_all_paths_disagrees_with_dfs_enumeration", cls=cls, mech="start_equals_end", edges=sorted(E), pair=(s, s), got=got[:6], expected=[(s,)])
+                if g.n_paths(s, s) != 1:
+                    ctx.fail("n_paths_wrong", cls=cls, mech="start_equals_end", edges=sorted(E), pair=(s, s), got=int(g.n_paths(s, s)))
             continue
         reach = t in ref.reachable(n, E, directed, s)
         for method in ("bfs", "dfs"):
@@ -415,6 +423,8 @@ def w_exhaustive(ctx, rng, i):
                 ctx.fail("invalid_tree_accepted", cls="Tree", edges=edges, root=root)
             if built:
                 judge_tree(ctx, t, n, canon_edges(edges, True), root, type(t).__name__)
+                # a tree is a directed graph: paths between every pair of its vertices as for the graph on the same edges
+                judge_paths(ctx, t, n, canon_edges(edges, True), True, type(t).__name__, [(s_, t_) for s_ in range(n) for t_ in range(n)])
                 if i % 2:
                     judge_masks(ctx, t, n, all_masks(n))
     ctx.count_case(("small", kind, n, tuple(edges)), nontrivial=len(edges) >= 1,
@@ -575,6 +585,10 @@ def w_trees(ctx, rng, i):
     E = judge_structure(ctx, t, n, edges, True, cls)
     judge_tree(ctx, t, n, E, root, cls)
     judge_cycles(ctx, t, n, E, True, cls)
+    # a tree is a directed graph: paths (also from a vertex to itself, and against the edge direction: none) as for any graph
+    tp = [(int(a), int(b)) for a, b in rng.integers(0, n, (8, 2))] + [(root, int(rng.integers(0, n))), (int(rng.integers(0, n)),) * 2]
+    judge_paths(ctx, t, n, E, True, cls, tp)
+    judge_shortest(ctx, t, n, {e: 1.0 for e in E}, True, cls, tp[:6], unweighted=bool(i % 2))
     # a wrong root must be refused (the tree is not an arborescence from there) unless n == 1
     wrong = int((root + 1 + rng.integers(0, n - 1)) % n)
     if wrong != root:
